@@ -242,7 +242,8 @@ int vf::engine_main() {
       clear_current();
     }
     // ---- (3) two threads over a socketpair through FdReader/FdWriter
-    if ((args().only_stage.empty() || args().only_stage == "fd") && (args().only_case >= 0 || mine((uint64_t)kv.first + 5))) {
+    if (first.serve_fd == nullptr) rep().count("c14_interfaces_with_table_arguments_(no_fd_transport)");
+    if (first.serve_fd != nullptr && (args().only_stage.empty() || args().only_stage == "fd") && (args().only_case >= 0 || mine((uint64_t)kv.first + 5))) {
       std::vector<const MethodRow*> bound; for (auto* m : rows) if (m->bound) bound.push_back(m);
       int rounds = th ? 20 : 3;
       for (int rd = 0; rd < rounds; rd++) {
